@@ -59,10 +59,22 @@ class UserBox(akppobj.PPObj):
     """user-defined printable object producing lines"""
     PALETTE_CLASS = BoxPalette
 
-    def __init__(self, items):
+    def __init__(self, items, keep_lines=False):
         self.items = items
+        # (a pane that highlights its lines once per palette, keeps the texts and yields the same objects on every
+        # refresh: the lines are its own)
+        self.keep_lines = keep_lines
+        self._kept = {}
 
     def gen_ch_lines(self, cp):
+        if self.keep_lines:
+            if id(cp) not in self._kept:
+                self._kept[id(cp)] = (cp, list(self._gen_lines(cp)))
+            yield from self._kept[id(cp)][1]
+            return
+        yield from self._gen_lines(cp)
+
+    def _gen_lines(self, cp):
         width = max([len(str(x)) for x in self.items] + [3])
         yield CHText(cp.frame("+" + "-" * width + "+"))
         for x in self.items:
@@ -471,6 +483,26 @@ class OwnPaletteFieldType(FieldType):
         return [field_palette.value(str(value))], akppobj.ALIGN_LEFT
 
 
+class UnitFieldType(FieldType):
+    """an application's field type with format modifiers of its own (documented hooks, super() called): the modifier
+    is the unit the number is shown in - free-form texts such as 'km/h'"""
+
+    def __init__(self, units):
+        super().__init__()
+        self.units = list(units)
+
+    def is_fmt_modifier_ok(self, fmt_modifier):
+        if fmt_modifier is None or fmt_modifier in self.units:
+            return True, ""
+        return False, f"unknown unit '{fmt_modifier}'; known units: {self.units}"
+
+    def make_desired_cell_ch_chunks(self, value, fmt_modifier, field_palette):
+        chunks, align = super().make_desired_cell_ch_chunks(value, None, field_palette)
+        if fmt_modifier not in (None, "raw") and value is not None:
+            chunks = chunks + [field_palette.text(" " + fmt_modifier)]
+        return chunks, align
+
+
 class LegendTable(PPTable):
     """a user's table class: the documented line generator is overridden to append a legend"""
 
@@ -556,7 +588,7 @@ def build_object(spec, enums):
             return Built(k, akppobj.pp, spec, value)        # the ready-to-use printer of the module
         return Built(k, PrettyPrinter(fmt_json=spec.get("fmt_json", False)), spec, value)
     if k == "userbox":
-        return Built(k, UserBox(spec["items"]), spec)
+        return Built(k, UserBox(spec["items"], keep_lines=bool(spec.get("keep_lines"))), spec)
     if k == "usernote":
         return Built(k, UserNote(spec["items"]), spec)
     if k == "table":
